@@ -472,3 +472,186 @@ func ruleNoJoinBeforeRelease(c *core.Ctx, rule string, minGo, minChecked int, pk
 }
 
 var _ = sort.Strings
+
+// ---- one result, one receive -------------------------------------------------------------------------
+
+// onlySelectCase keeps, of the dispatch that follows a select statement, the edges of case idx only.
+func onlySelectCase(sel *ssa.Select, idx int) func(from, to *ssa.BasicBlock) bool {
+	return func(from, to *ssa.BasicBlock) bool {
+		if len(from.Instrs) == 0 || len(from.Succs) != 2 {
+			return false
+		}
+		iff, ok := from.Instrs[len(from.Instrs)-1].(*ssa.If)
+		if !ok {
+			return false
+		}
+		bo, ok := iff.Cond.(*ssa.BinOp)
+		if !ok || bo.Op != token.EQL {
+			return false
+		}
+		ex, ok := bo.X.(*ssa.Extract)
+		if !ok || ex.Tuple != ssa.Value(sel) || ex.Index != 0 {
+			return false
+		}
+		k, isC := core.ConstInt(bo.Y)
+		if !isC {
+			return false
+		}
+		if int(k) == idx {
+			return to == from.Succs[1] // skip 'not this case'
+		}
+		return to == from.Succs[0] // skip 'another case'
+	}
+}
+
+// ruleOneResultOneReceive (R16.9): in top (a wounds consumer's Do), a channel made there on which a goroutine
+// started there sends its single result is received from at most once on any path: a function literal that
+// receives from it (in a select case, say) leaves with a non-nil error on every path from that receive, the
+// caller returns on that error before it can receive again, and a receive in top itself is followed by no
+// other. A second receive waits for a result that never comes.
+func ruleOneResultOneReceive(c *core.Ctx, rule string, top *ssa.Function) {
+	c.Rule(rule, "the single result of a helper goroutine is received at most once on any path")
+	if top == nil {
+		c.Missing(rule, "wounds consumer Do", "not found")
+		return
+	}
+	// result channels: made in top, sent on by a literal started with go
+	goLits := map[*ssa.Function]bool{}
+	core.Instrs(top, func(in ssa.Instruction) {
+		if g, ok := in.(*ssa.Go); ok {
+			if mc, ok := g.Call.Value.(*ssa.MakeClosure); ok {
+				if f, ok := mc.Fn.(*ssa.Function); ok {
+					goLits[f] = true
+				}
+			}
+		}
+	})
+	chanRoot := func(v ssa.Value) ssa.Value {
+		v = core.CellRoot(v)
+		if ld, ok := v.(*ssa.UnOp); ok && ld.Op == token.MUL {
+			r := core.CellRoot(ld.X)
+			if a, ok := r.(*ssa.Alloc); ok {
+				for _, st := range core.CellStores(a) {
+					if mk, ok := st.Val.(*ssa.MakeChan); ok {
+						return mk
+					}
+				}
+			}
+			return r
+		}
+		return v
+	}
+	results := map[ssa.Value]bool{}
+	for lit := range goLits {
+		sends := 0
+		var ch ssa.Value
+		core.Instrs(lit, func(in ssa.Instruction) {
+			if s, ok := in.(*ssa.Send); ok {
+				sends++
+				ch = chanRoot(s.Chan)
+			}
+		})
+		if sends == 1 && ch != nil {
+			if _, isMk := ch.(*ssa.MakeChan); isMk {
+				results[ch] = true
+			}
+		}
+	}
+	type recv struct {
+		fn  *ssa.Function
+		in  ssa.Instruction
+		sel *ssa.Select
+		idx int
+	}
+	var recvs []recv
+	for _, f := range core.WithAnons(top) {
+		if goLits[f] {
+			continue
+		}
+		core.Instrs(f, func(in ssa.Instruction) {
+			switch x := in.(type) {
+			case *ssa.UnOp:
+				if x.Op == token.ARROW && results[chanRoot(x.X)] {
+					recvs = append(recvs, recv{f, in, nil, -1})
+				}
+			case *ssa.Select:
+				for i, st := range x.States {
+					if st.Dir == types.RecvOnly && results[chanRoot(st.Chan)] {
+						recvs = append(recvs, recv{f, in, x, i})
+					}
+				}
+			}
+		})
+	}
+	isRecvOrCallOfReceiver := func(self ssa.Instruction) ipred {
+		return func(in ssa.Instruction) bool {
+			if in == self {
+				return false
+			}
+			for _, r := range recvs {
+				if r.in == in {
+					return true
+				}
+			}
+			if cl, ok := in.(*ssa.Call); ok {
+				for _, r := range recvs {
+					if r.fn != top && calledFunc(cl) == r.fn {
+						return true
+					}
+				}
+			}
+			return false
+		}
+	}
+	for _, r := range recvs {
+		var skip func(from, to *ssa.BasicBlock) bool
+		if r.sel != nil {
+			skip = onlySelectCase(r.sel, r.idx)
+		}
+		if r.fn == top {
+			p := core.FindPathSkipping(top, r.in, isRecvOrCallOfReceiver(r.in), nil, skip)
+			c.Check(p == nil, rule, core.FnName(top), "no second receive after the result was taken", core.InstrPos(r.in),
+				"no path from this receive reaches another receive of the same result", "after this receive the function can receive from the result channel again: the goroutine sends once, the second receive blocks for ever").Path = c.P.PathStrings(p)
+			continue
+		}
+		// in a literal: every return behind the receive hands back a non-nil error
+		success := map[*ssa.Return]bool{}
+		for _, rs := range successReturns(r.fn) {
+			success[rs.Ret] = true
+		}
+		var bad []ssa.Instruction
+		for ret := range success {
+			if p := core.FindPathSkipping(r.fn, r.in, isInstr(ret), nil, skip); p != nil {
+				bad = p
+			}
+		}
+		c.Check(bad == nil, rule, core.FnName(r.fn), "the literal leaves with an error once it has taken the result", core.InstrPos(r.in),
+			"every return behind this receive hands back a non-nil error", "the literal can take the helper goroutine's result and still return nil (the goroutine reports nil when its context is cancelled): the caller carries on, and when it comes to collect the result at the end there is none left - Do, and with it the validation, never returns").Path = c.P.PathStrings(bad)
+		// the caller leaves on that error before it can receive again
+		core.Instrs(top, func(in ssa.Instruction) {
+			cl, ok := in.(*ssa.Call)
+			if !ok || calledFunc(cl) != r.fn {
+				return
+			}
+			p := core.FindPathSkipping(top, cl, isRecvOrCallOfReceiver(cl), nil, func(b, s2 *ssa.BasicBlock) bool { return nilOutcomeEdge(cl, b, s2) })
+			c.Check(p == nil, rule, core.FnName(top), "caller returns on the literal's error before receiving again", core.InstrPos(cl),
+				"on the non-nil outcome of the call no receive of the result is reached", "the caller can go on to receive the result although the literal it called reported an error after taking it").Path = c.P.PathStrings(p)
+		})
+	}
+	c.Floor(rule, "receives of a helper goroutine's single result in "+core.FnName(top), len(recvs), 2)
+}
+
+// calledFunc: the function literal (or function) a call invokes, through a closure value or a local that holds it.
+func calledFunc(cl *ssa.Call) *ssa.Function {
+	for _, o := range core.Origins(cl.Call.Value) {
+		switch x := o.(type) {
+		case *ssa.MakeClosure:
+			if f, ok := x.Fn.(*ssa.Function); ok {
+				return f
+			}
+		case *ssa.Function:
+			return x
+		}
+	}
+	return nil
+}
